@@ -119,6 +119,8 @@ def generate(seed, tier, idx=0):
     switch = (rng.choice(ids), rng.choice([1, 2, 3])) if rng.random() < 0.3 else None
     c = build_case(prog, plan, rng.choice([1, 2, 3]), rng.choice(MODES), rng.randint(0, 5),
                    switch)
+    if rng.random() < 0.25:
+        c["log_level"] = rng.choice([0, 10, 30, 50])
     if rng.random() < 0.35:
         return polling_case(rng, seed, prog, plan)
     if rng.random() < 0.3:
@@ -149,6 +151,8 @@ def polling_case(rng, seed, prog, plan):
                        rng.choice([0, 1, 2, 3, 4, 6, 8, 10, 12, 15, 20, 25, 30, 40, 60])]
     if rng.random() < 0.15:
         case["sched"]["opcodes"] = True      # pre-emption between bytecodes of simulator.py
+    if rng.random() < 0.4:
+        case["sched"]["refill"] = True       # pre-emption budget per command instead of per run
     return case
 
 
@@ -254,6 +258,8 @@ def execute(case):
                         # an earlier handler switches to another strategy mid-run
                         switch = (ids[0], 1 + (strategy + k // 3) % 3)
                     sub = build_case(prog, [(eid, pos, exc)], strategy, mode, k, switch)
+                    if k % 4 == 1:
+                        sub["log_level"] = (10, 50, 0, 30)[(k // 4) % 4]
                     r, findings, fired, nontriv = run_single(sub)
                     n += 1
                     clean = clean and r.clean
